@@ -6,6 +6,8 @@ import TsrunVerif.Driver.RegAlloc
 import TsrunVerif.Driver.Pos
 import TsrunVerif.Driver.Mod
 import TsrunVerif.Driver.Orders
+import TsrunVerif.Driver.Roots
+import TsrunVerif.Driver.Life
 
 /-! `tvdriver <model>`: line protocol, one observation line per case line. -/
 
@@ -28,5 +30,7 @@ def main (args : List String) : IO UInt32 := do
   | ["pos"] => loop stdin stdout TsrunVerif.Driver.posLine; return 0
   | ["mod"] => loop stdin stdout TsrunVerif.Driver.modLine; return 0
   | ["orders"] => loop stdin stdout TsrunVerif.Driver.ordersLine; return 0
+  | ["roots"] => loop stdin stdout TsrunVerif.Driver.rootsLine; return 0
+  | ["life"] => loop stdin stdout TsrunVerif.Driver.lifeLine; return 0
   | ["heap"] => loop stdin stdout TsrunVerif.Driver.heapLine; return 0
   | _ => IO.eprintln "usage: tvdriver <model>"; return 2
